@@ -71,7 +71,7 @@ class DTDParser(Parser):
     Name = "[" + NameStartChar + "][" + NameChar + "]*"
     reKey = re.compile(
         "<!ENTITY[ \t\r\n]+(?P<key>" + Name + ")[ \t\r\n]+"
-        "(?P<val>\"[^\"]*\"|'[^']*'?)[ \t\r\n]*>",
+        "(?P<val>\"[^\"]*\"|'[^']*')[ \t\r\n]*>",
         re.DOTALL | re.M,
     )
     # add BOM to DTDs, details in bug 435002
